@@ -1399,6 +1399,27 @@ def family_models(ctx):
             k_ = a_ if start == 0 else b_
             fd.append({"data": f32(a_, b_), "t": f32(a_, 4), "updates": f32(k_, 4)})
         out.append((f"sym_scatter_range_of_shape_start{start}", m.SerializeToString(), fd, ["optimize", "rewrite", "optimize_ir_i1_noinf"], True))
+    #      the same idiom where the range comes from ANOTHER tensor than the scatter target (buf[:n] = upd): a full overwrite only when
+    #      the two leading dims are the same literal or the same NAME - two unnamed dims are two unknowns (DimEq.tla); bindings n <= k
+    for wname, dn, tn in (("same_name", "A", "A"), ("two_names", "A", "K"), ("both_unnamed", None, None), ("data_unnamed", None, "K"),
+                          ("target_unnamed", "A", None), ("same_literal", 3, 3), ("two_literals", 2, 3)):
+        nodes = [h.make_node("Shape", ["data"], ["shape"], start=0), h.make_node("Constant", [], ["axis"], value_int=0),
+                 h.make_node("Gather", ["shape", "axis"], ["n"], axis=0), h.make_node("Constant", [], ["zero"], value_int=0),
+                 h.make_node("Constant", [], ["one"], value_int=1), h.make_node("Range", ["zero", "n", "one"], ["rng"]),
+                 h.make_node("Constant", [], ["minus1"], value_ints=[-1]), h.make_node("Unsqueeze", ["rng", "minus1"], ["idx"]),
+                 h.make_node("ScatterND", ["t", "idx", "data"], ["out"], reduction="none"), h.make_node("Relu", ["out"], ["z"])]
+        g = h.make_graph(nodes, "scat2", [h.make_tensor_value_info("data", T.FLOAT, [dn, 4]), h.make_tensor_value_info("t", T.FLOAT, [tn, 4])],
+                         [h.make_tensor_value_info("z", T.FLOAT, [tn, 4])])
+        m = h.make_model(g, opset_imports=[h.make_opsetid("", 18)])
+        m.ir_version = 8
+        if isinstance(dn, int):
+            pairs = [(dn, tn)] * 2
+        elif wname == "same_name":
+            pairs = [(0, 0), (1, 1), (3, 3), (7, 7)]
+        else:
+            pairs = [(0, 1), (1, 1), (2, 3), (3, 3), (1, 7), (0, 0)]
+        fd = [{"data": f32(n_, 4, lo=-3, hi=3), "t": f32(k_, 4, lo=-3, hi=3)} for n_, k_ in pairs]
+        out.append((f"sym_scatter_prefix_{wname}", m.SerializeToString(), fd, ["optimize", "rewrite", "optimize_ir_i1_noinf"], True))
     #      Reshape with a run-time target whose output is ANNOTATED with a static 0 dim (MaterializeReshapeShape)
     for az in (None, 1):
         kw = {} if az is None else {"allowzero": az}
